@@ -307,19 +307,26 @@ def check_cli(atoms, out):
 
     t = atoms_to_table(atoms)
     extra = {"exptl": (["entry_id", "method"], [(("v", "VERIF"), ("v", "X-RAY DIFFRACTION"))]), "refine": (["entry_id", "ls_d_res_high"], [(("v", "VERIF"), ("v", "1.90"))])}
-    text = enumio.emit_cif(t, null_occ=".", extra_categories=extra)
     sd = scratch_dir()
-    path = os.path.join(sd, "clash.cif")
-    with open(path, "w") as f:
-        f.write(text)
     n = 0
-    for flags in ([], ["--ignore-occupancy"], ["--ignore-occupancy", "--enable-molprobity-mode"], ["--ignore-occupancy", "--ignore-autoclashes", "--require-same-atom-name", "--enable-molprobity-mode"]):
+    full = ([], ["--ignore-occupancy"], ["--ignore-occupancy", "--enable-molprobity-mode"], ["--ignore-occupancy", "--ignore-autoclashes", "--require-same-atom-name", "--enable-molprobity-mode"])
+    # the same atoms as mmCIF with exptl/refine metadata, as mmCIF without those categories, and as PDB (which has no such metadata at all)
+    runs = [("clash.cif", enumio.emit_cif(t, null_occ=".", extra_categories=extra), fl) for fl in full]
+    runs.append(("clash-nometa.cif", enumio.emit_cif(t, null_occ="."), ["--ignore-occupancy"]))
+    if all(a["occ"] is not None for a in t):
+        runs.append(("clash.pdb", enumio.emit_pdb(t), ["--ignore-occupancy"]))
+        runs.append(("clash.pdb", enumio.emit_pdb(t), ["--enable-molprobity-mode"]))
+    for fname, text, flags in runs:
+        path = os.path.join(sd, fname)
+        with open(path, "w") as f:
+            f.write(text)
         pcsv = os.path.join(sd, "clash.csv")
         if os.path.exists(pcsv):
             os.remove(pcsv)
         r = observe(run_cli, [path] + flags + ["--csv", pcsv])
         if r[0] == "exc":
-            out.append(viol("cli:" + r[1], "clashfinder.main %s raised %s" % (flags, r[2])))
+            out.append(viol("cli:%s%s" % (r[1], "" if fname == "clash.cif" else ":" + fname.split(".", 1)[0].replace("clash", "") + fname.rsplit(".", 1)[1]),
+                            "clashfinder.main %s on %s raised %s" % (flags, fname, r[2])))
             continue
         with open(path) as f:
             s = read_3d_structure(f, 1)
